@@ -518,6 +518,9 @@ func (p *Prog) disallowedPreGate(n ast.Node) []string {
 				okPkg = true
 			}
 		}
+		if pureExternal[extFuncKey(c)] || (c.Pkg().Path() == "net" && c.Name() == "String") {
+			okPkg = true // documented pure queries (address formatting, clock reads)
+		}
 		if !okPkg {
 			addOff("calls " + c.Pkg().Path() + "." + c.Name())
 		}
